@@ -81,6 +81,15 @@ func (e analyzerEngine) Gen(prop, tier string, seed uint64, idx int) *runner.Cas
 		}
 		doc = p.Doc
 		c.Name = "sys/" + p.Name
+		if i%5 == 2 {
+			// an operation without any "responses" key (loadable): its parameters are still analysed
+			if op := jx.AsObj(jx.AsObj(jx.AsObj(doc["paths"])[path])[method]); op != nil {
+				if rs := jx.AsObj(op["responses"]); len(rs) == 1 && len(jx.AsObj(rs["200"])) == 1 {
+					delete(op, "responses")
+					c.Name += "/no-responses"
+				}
+			}
+		}
 		if hostile {
 			c.Name += "/hostile"
 			if i%2 == 0 {
@@ -100,12 +109,12 @@ func (e analyzerEngine) Gen(prop, tier string, seed uint64, idx int) *runner.Cas
 	case idx < sys+rnd:
 		rng := gen.NewRng(seed, idx)
 		c.Name = "rnd/" + strconv.Itoa(idx)
-		cfg := gen.DocCfg{Hostile: gen.Chance(rng, 60), Depth: 1 + rng.IntN(3), Extended: true, PatEnum: true, RefPct: 25, RemoteRefs: true}
+		cfg := gen.DocCfg{Hostile: gen.Chance(rng, 60), Depth: 1 + rng.IntN(3), Extended: true, PatEnum: true, RefPct: 25, RemoteRefs: true, OpNoResp: gen.Chance(rng, 40)}
 		switch prop {
 		case "C14":
 			cfg = gen.DocCfg{Depth: 1, Security: true, MaxPaths: 5, MaxDefs: 2, NoPaths: gen.Chance(rng, 5)}
 		case "C15":
-			cfg = gen.DocCfg{Depth: 1, BadParamRefs: true, MaxPaths: 4, MaxDefs: 2, NoPaths: gen.Chance(rng, 8), Hostile: gen.Chance(rng, 30)}
+			cfg = gen.DocCfg{Depth: 1, BadParamRefs: true, MaxPaths: 4, MaxDefs: 2, NoPaths: gen.Chance(rng, 8), Hostile: gen.Chance(rng, 30), OpNoResp: gen.Chance(rng, 30)}
 		}
 		doc = gen.Doc(rng, cfg)
 	default:
